@@ -9,12 +9,12 @@ HERE = os.path.dirname(os.path.dirname(os.path.abspath(__file__)))
 CLAIMED = {
     "C01": ("exploration",
             "differential property-based testing: one-shot delivery vs generated read schedule / chunk size / constructor, for all parsers, literal types and input classes; items and final outcome incl. line:column:message compared",
-            "Every generated input (valid in three renderings, mutated, spliced, repository fixtures, arbitrary) is parsed once the way the unit tests do (single read) and once through a generated feed (1-byte reads, short reads, Interrupted, chunk 1..64/4096/default, from_buf_reader); the item sequences and the final outcome including error location and message must be identical. 120k pairs quick / 3M thorough plus long documents that realign with 1000/4096/16384-byte chunks.",
+            "Every generated input (valid in three renderings, mutated, spliced, repository fixtures, arbitrary) is parsed once the way the unit tests do (single read) and once through a generated feed (1-byte reads, short reads, Interrupted, chunk 1..64/4096/default, from_buf_reader); the item sequences and the final outcome including error location and message must be identical. 120k pairs quick / 3M thorough plus long documents that realign with 1000/4096/16384-byte chunks, and a few documents with a single comment line of 65..72 MiB (which must also parse to a clean end).",
             "Trusts the scheduled source; a panic occurring identically in both runs is left to C05.",
             "DESIGN.md section 4, C01"),
     "C03": ("exploration",
             "round-trip property-based testing: parse(write(v)) == v over generated values of every writer's domain (all three AIGER writers, huge binary input counts, constructor-candidate BTOR2 constants) and parse(write(parse(t))) == parse(t) over accepted generated texts",
-            "Generated abstract values for DIMACS (5 literal types), AIGER (5 literal types, arbitrary numbering, every section and symbol kind) and BTOR2 (every operator and constant form through the public constructors) are written with the crate's writers and parsed back through the streaming and the collecting APIs, one-shot and re-chunked; every accepted text from the input generators is rewritten from its parsed value and parsed again. Generator feature classes (each latch reset form, symbol kind, operator, 9+-byte delta codes, ...) must all occur, otherwise the run is inconclusive.",
+            "Generated abstract values for DIMACS (5 literal types), AIGER (5 literal types, arbitrary numbering, every section and symbol kind) and BTOR2 (every operator and constant form through the public constructors) are written with the crate's writers and parsed back through the streaming and the collecting APIs, one-shot and re-chunked; every accepted text from the input generators is rewritten from its parsed value and parsed again. Generator feature classes (each latch reset form, symbol kind, operator, 9+-byte delta codes, ...) must all occur, otherwise the run is inconclusive. Oracle forward-at-buffer-end writes each document again with a chosen token 0..45 bytes in front of the end of the writer's 16 KiB buffer (64-bit extreme weights/groups/deltas): the text must not change and nothing may panic.",
             "The value domain is stated in the rule; structural equality is on owned mirrors of the crate's value types (harness/src/drivers.rs, btor.rs).",
             "DESIGN.md section 4, C03"),
     "C04": ("fault_enumeration",
@@ -44,7 +44,7 @@ CLAIMED = {
             "DESIGN.md section 4, C09"),
     "C10": ("exploration",
             "parameter sweep drawn by proptest over (parser, chunk size, read size, max item size) with on-the-fly generated streams of >= 64 x bound bytes and a counting global allocator measuring peak live heap",
-            "Each configuration streams tens of MiB (thorough: up to 1 GiB for 1 MiB chunks) that are never materialised through a streaming parser; the peak live heap must stay below 16 x chunk + 16 x max item + 64 KiB and the stream must parse to a clean end with the generated number of items. Also: AIGER section readers in skip mode, streams with a damaged tail (BTOR2 justice count, megabytes of binary continuation bytes) that must be rejected within the bound, and the DeferredReader driven directly in three scanner styles.",
+            "Each configuration streams tens of MiB (thorough: up to 1 GiB for 1 MiB chunks) that are never materialised through a streaming parser; the peak live heap must stay below 16 x chunk + 16 x max item + 64 KiB and the stream must parse to a clean end with the generated number of items. Also: AIGER section readers in skip mode, streams with a damaged tail (BTOR2 justice count, megabytes of binary continuation bytes) that must be rejected within the bound, and the DeferredReader driven directly in three scanner styles, solver-log streams (with and without ignore_unknown_lines), a 40 MiB chunk over 100 MiB, construction by from_buf_reader, chunk sizes configured twice, and a short input asked for far more than it holds.",
             "Bound constants are judgement calls (DESIGN.md); quick tier caps the stream at 48 MiB per configuration.",
             "DESIGN.md section 4, C10"),
     "C12": ("exploration",
@@ -59,7 +59,7 @@ CLAIMED = {
             "DESIGN.md section 4, C05"),
     "C02": ("exploration",
             "stateful property-based testing: proptest-generated operation histories x read schedules x constructors, every observer compared with a Vec+cursor reference model after every step",
-            "Generated reader histories (200k quick / 5M thorough, plus long inputs with 1000/4096/16384-byte chunks) are interpreted against the real DeferredReader and a reference model; buf/buf_len/buf_ptr/position/mark/is_complete/is_at_end/io_error and the results of request*, advance_with_buf and check_io_error are compared after every operation. Also: interruption storms, offsets next to usize::MAX, calls documented to panic (caught; state unchanged), 0.3..1 MB inputs with look-ahead up to 700 KB. Failures are shrunk by proptest and stored as JSON replays.",
+            "Generated reader histories (200k quick / 5M thorough, plus long inputs with 1000/4096/16384-byte chunks) are interpreted against the real DeferredReader and a reference model; buf/buf_len/buf_ptr/position/mark/is_complete/is_at_end/io_error and the results of request*, advance_with_buf and check_io_error are compared after every operation. Also: interruption storms, offsets next to usize::MAX, calls documented to panic (caught; state unchanged), 0.3..1 MB inputs with look-ahead up to 700 KB, ~70 MiB inputs with single requests of 33..71 MiB. Failures are shrunk by proptest and stored as JSON replays.",
             "Trusts the scheduled source (harness/src/source.rs) and the model in harness/src/reader_model.rs; sampling only, position wrap-around unreachable.",
             "DESIGN.md section 4, C02"),
     "C11": ("exploration",
@@ -84,7 +84,7 @@ CLAIMED = {
             "DESIGN.md section 4, C16"),
     "C15": ("exploration",
             "complete enumeration of the finite combinator domain + proptest-drawn payloads against a reference semantics table with closure invocation counters",
-            "Every (combinator, input case, continuation result) combination of the 15 combinators is executed and compared with a reference table written from the documentation (result value, closure invocation count, closure argument, mutation); payload values are additionally sampled by proptest. Each combination runs in 16 evaluation contexts (i64 payloads with capturing closures or zero-sized payloads with fn items; plainly or inside a destructor while the thread unwinds; plainly or inside 1500 active continuations of the combinator under test; at one or at three stack positions) and once more while 300 threads are parked inside each combinator in turn. The domain is finite, so the enumeration is complete (exhaustive: true).",
+            "Every (combinator, input case, continuation result) combination of the 15 combinators is executed and compared with a reference table written from the documentation (result value, closure invocation count, closure argument, mutation); payload values are additionally sampled by proptest. Each combination runs in 16 evaluation contexts (i64 payloads with capturing closures or zero-sized payloads with fn items; plainly or inside a destructor while the thread unwinds; plainly or inside 1500 active continuations of the combinator under test; at one or at three stack positions) and once more while 300 threads are parked inside each combinator in turn; 2^32+1000 evaluations of each closure-taking Parsed combinator on one thread; 160-fold nesting around 64 KiB payloads. The domain is finite, so the enumeration is complete (exhaustive: true).",
             "Trusts the reference table in harness/src/props/c15.rs; payload types are i64 and () (the combinators are parametric).",
             "DESIGN.md section 4, C15"),
 }
